@@ -456,6 +456,44 @@ def sampling(repo: Repo, rep: Report, bits: Optional[int]) -> None:
         rep.undecide("RNG-7", f"seeding: {ex}")
 
 
+    # re-seeding restarts every stream: seed(s), some draws from each of the four functions, seed(s) again, the same draws
+    rep.rule("RNG-10", "after seed(s) every sampling function draws from the newly seeded generator: the same seed gives the same interleaved "
+                       "sequence of randint / choice / shuffle / random values, however often the generator was used or re-seeded before")
+    try:
+        mod = repo.mod(DR)
+        cw = ClassWorld([mod])
+        cw.genv["_rng"] = cw.new("XorShift", 0)  # as at import
+
+        def draws() -> List[Any]:
+            out: List[Any] = [cw.call("random"), cw.call("randint", 0, 9), cw.call("choice", ["a", "b", "c", "d", "e"])]
+            seq = [1, 2, 3, 4, 5]
+            cw.call("shuffle", seq)
+            out.append(tuple(seq))
+            out += [cw.call("random"), cw.call("randint", -5, 5)]
+            return out
+
+        cw.call("random")  # the generator has been used before the first seeding
+        cw.call("seed", 5)
+        first = draws()
+        cw.call("seed", 6)
+        other = draws()
+        cw.call("seed", 5)
+        again = draws()
+        if first == again and first != other:
+            rep.ok("RNG-10", "seed(5) / draws / seed(6) / draws / seed(5) / draws: the two seed-5 sequences are equal, the seed-6 one differs")
+        else:
+            k = next((i for i, (x, y) in enumerate(zip(first, again)) if x != y), None)
+            names = ["random()", "randint(0, 9)", "choice", "shuffle", "random()", "randint(-5, 5)"]
+            rep.finding("RNG-10", DR, "seed", "re-seeding",
+                        (f"after re-seeding with the same seed draw #{k} ({names[k]}) gives {again[k]!r} instead of {first[k]!r}: that function still "
+                         "draws from a generator that seed() no longer controls") if k is not None else
+                        "different seeds give the same sequence: the seed is ignored")
+    except (Undecided, IndexOutOfRange) as ex:
+        rep.undecide("RNG-10", str(ex))
+    except Raised as ex:
+        rep.finding("RNG-10", DR, "seed", "re-seeding", f"raises {ex.what}")
+
+
 # ------------------------------------------------------------------------------------------
 
 
